@@ -41,7 +41,7 @@ CUDA_DEFS = ["-D__global__=", "-D__device__=", "-D__host__=", "-D__constant__=co
 
 ASAN_ENV = {
     "ASAN_OPTIONS": "detect_leaks=1:halt_on_error=1:abort_on_error=0:detect_stack_use_after_return=1:"
-                    "redzone=128:allocator_may_return_null=1:exitcode=86",
+                    "redzone=1024:allocator_may_return_null=1:exitcode=86",
     "UBSAN_OPTIONS": "print_stacktrace=1:halt_on_error=0:exitcode=87",
     "LSAN_OPTIONS": "exitcode=88",
 }
